@@ -61,6 +61,8 @@ func thriftType(ty string) thrift.Type {
 		return thrift.SET
 	case "MAP":
 		return thrift.MAP
+	case "ENUM":
+		return thrift.I32 // enums are i32 on the wire
 	}
 	return thrift.STRUCT // STRUCT and STRUCTP
 }
@@ -80,6 +82,8 @@ func (l tlift) writeLogical(w thrift.Writer, v tVal, compact bool) error {
 		return w.WriteInt64(l.scalar("I64", v.V).(int64))
 	case "DOUBLE":
 		return w.WriteFloat64(l.scalar("DOUBLE", v.V).(float64))
+	case "ENUM":
+		return w.WriteInt32(int32(l.enumValue(v.E, v.V)))
 	case "BINARY":
 		if v.V%2 == 0 {
 			return w.WriteString(l.scalar("BINARY", v.V).(string))
@@ -169,14 +173,18 @@ func c13Classify(c *Ctx, k thriftCase, api string, got, want, asis []byte, findi
 func c13Run(c *Ctx, k thriftCase, v *thriftVec) {
 	l := tlift{k.Salt}
 	compact := k.Proto == "compact"
-	var want, asis, alt, altasis []byte
+	var want, asis, asisW, alt, altasis []byte
 	finding := "F-C13-1"
 	if compact {
-		want, asis = l.expand(v.Comp), l.expand(v.CompAsIs)
+		want, asis, asisW = l.expand(v.Comp), l.expand(v.CompAsIs), l.expand(v.CompAsIsW)
 		alt, altasis = l.expand(v.CompLong), l.expand(v.CompLongAsIs)
 		finding = "F-C13-3"
 	} else {
-		want, asis = l.expand(v.Bin), l.expand(v.BinAsIs)
+		want, asis, asisW = l.expand(v.Bin), l.expand(v.BinAsIs), l.expand(v.BinAsIsW)
+	}
+	findingW := finding
+	if wideEnum(k.Layout) {
+		finding = "F-C13-5" // the header of an enum field carries the type of the Go field's width (the value is an i32)
 	}
 	p := protoOf(k.Proto)
 	// Writer level
@@ -185,7 +193,7 @@ func c13Run(c *Ctx, k thriftCase, v *thriftVec) {
 	if pn := protect(func() { err = l.writeLogical(p.NewWriter(&buf), v.Logical, compact) }); pn != "" || err != nil {
 		c.Diverge("C13", "Writer["+k.Proto+"]", "bytes", fmt.Sprintf("panic=%q err=%v", pn, err), "", k)
 	} else {
-		c13Classify(c, k, "Writer calls", buf.Bytes(), want, asis, finding)
+		c13Classify(c, k, "Writer calls", buf.Bytes(), want, asisW, findingW)
 	}
 	// Marshal level
 	x := l.structValue(k.Layout, k.Vals).Interface()
@@ -226,6 +234,15 @@ func c13Run(c *Ctx, k thriftCase, v *thriftVec) {
 	if compact {
 		dec("long-form headers", alt, altasis)
 	}
+}
+
+func wideEnum(layout []tField) bool {
+	for _, f := range layout {
+		if f.Ty == "ENUM" && f.E != "I32" {
+			return true
+		}
+	}
+	return false
 }
 
 func parseThriftVec(c *Ctx, prop string, raw stdjson.RawMessage) (*thriftVec, bool) {
@@ -647,8 +664,8 @@ func c08Run(c *Ctx, k thriftCase) {
 		// write field i with another type: strict decoding reports TypeMismatch
 		for i, f := range k.Layout {
 			other := tField{ID: f.ID, Ty: "I16"}
-			if f.Ty == "I16" {
-				other.Ty = "BINARY"
+			if f.Ty == "I16" || f.Ty == "ENUM" {
+				other.Ty = "BINARY" // (an enum field of 16-bit width expects I16 in the header as the code is: F-C13-5)
 			}
 			layout := append([]tField(nil), k.Layout...)
 			vals := append([]tVal(nil), k.Vals...)
